@@ -122,8 +122,8 @@ PLAN = {
               "Oracle: failed tx => state of a reverted no-op tx and no logs; successful tx => state and logs equal those of the tree with every EVM-dropped sub-tree deleted (outcome bits returned by the interpreter). "
               "non-trivial = a precompile call succeeded inside a frame the EVM later dropped, or a gas limit made the transaction fail after execution had started; evaluations counts trees, gas-points counts executions"),
         assumptions=["the interpreter contract's outcome bits are taken from the EVM's own success flags"],
-        quick=[dict(test="TestC09", cases=480, shards=16, timeout=900)],
-        thorough=[dict(test="TestC09", cases=16000, shards=16, timeout=3400, shrink=120)],
+        quick=[dict(test="TestC09", cases=4800, shards=16, timeout=900)],
+        thorough=[dict(test="TestC09", cases=160000, shards=16, timeout=3400, shrink=120)],
     ),
     "C08": dict(
         level="exploration",
